@@ -152,6 +152,39 @@ def _load(prop):
     return importlib.import_module('pv.props.%s' % prop.lower())
 
 
+REGRESS_DIR = os.path.join(HERE, 'regress')
+
+
+def run_regression_inputs(ctx, mod):
+    """Replay tier: saved inputs (shrunk failures met while developing the
+    checks - against the tree before its fixes and against seeded or mutated
+    copies) are re-executed through the property's replay function; on a
+    tree where the property holds none of them reproduces."""
+    d = os.path.join(REGRESS_DIR, ctx.prop)
+    if not os.path.isdir(d):
+        return
+    for name in sorted(os.listdir(d)):
+        if not name.endswith('.json'):
+            continue
+        path = os.path.join(d, name)
+        with open(path) as f:
+            data = json.load(f)
+        try:
+            vios = mod.replay(ctx, data['replay'])
+        except Violation as v:
+            vios = [{'signature': v.signature, 'detail': v.detail}]
+        ctx.stats.count('regression inputs replayed')
+        ctx.stats.evaluations += 1
+        for v in vios or []:
+            sig = dict(v['signature'])
+            sig.setdefault('prop', ctx.prop)
+            if ctx.known.match(sig) is not None:
+                continue
+            ctx.stats.violations.append(
+                {'signature': sig, 'detail': v.get('detail'),
+                 'replay': data['replay'], 'regression_input': name})
+
+
 def worker_main(argv):
     prop, tier, seed, idx, n, out = argv
     ctx = Ctx(prop, tier, int(seed), int(idx), int(n))
@@ -159,6 +192,8 @@ def worker_main(argv):
     res = {'ok': True}
     t0 = time.time()
     try:
+        if ctx.idx == 0:
+            run_regression_inputs(ctx, mod)
         mod.run_worker(ctx)
     except Exception:
         res['ok'] = False
